@@ -356,3 +356,77 @@ pub fn check_program(db: &Db, prog: &Program, insts: &[Inst]) -> Outcome {
     out.outcome_hash = hasher_acc;
     out
 }
+
+/// Replay one recorded AP violation without the explorer: compile the recorded PRQL, execute it on
+/// the recorded instance and compare with the recorded expectation.
+pub fn replay(v: &serde_json::Value) -> i32 {
+    let prql = v["prql"].as_str().unwrap_or("");
+    let d = match v["dialect"].as_str() {
+        Some("generic") => Dialect::Generic,
+        _ => Dialect::SQLite,
+    };
+    let parse_inst = |s: &str| -> Inst {
+        let rows = |part: &str| -> Vec<Vec<V>> {
+            let inner = part.split('[').nth(1).and_then(|x| x.split(']').next()).unwrap_or("");
+            inner
+                .split(')')
+                .filter_map(|r| r.trim().strip_prefix('('))
+                .map(|r| r.split(',').map(|c| match c.trim() { "NULL" => V::Null, x => x.parse::<i64>().map(V::Int).unwrap_or_else(|_| x.parse::<f64>().map(V::Real).unwrap_or(V::Null)) }).collect())
+                .collect()
+        };
+        let (t, u) = s.split_once(" u(a,d)=").unwrap_or((s, "[]"));
+        Inst { name: "replay".into(), t: rows(t), u: rows(u) }
+    };
+    let sql = match guard(|| prqlc::compile(prql, &opts(d))) {
+        Ok(Ok(s)) => s,
+        Ok(Err(e)) => {
+            println!("compile error: {}", err_text(&e));
+            return if v["kind"] == "CompileReject" { 1 } else { 0 };
+        }
+        Err(p) => {
+            println!("FAIL panic at {}: {}", p.site, p.msg);
+            return 1;
+        }
+    };
+    println!("SQL: {sql}");
+    let db = Db::new();
+    match v["kind"].as_str().unwrap_or("") {
+        "Arity" | "Names" => match db.prepare(&sql) {
+            Ok(names) => {
+                let got = serde_json::to_string(&names).unwrap();
+                println!("columns: {got}; recorded frame: {}", v["expected"]);
+                let exp: Vec<Option<String>> = serde_json::from_str(v["expected"].as_str().unwrap_or("[]")).unwrap_or_default();
+                let ok = exp.len() == names.len() && exp.iter().zip(&names).all(|(e, n)| e.as_ref().map(|e| e == n).unwrap_or(true));
+                if ok { println!("OK"); 0 } else { println!("FAIL"); 1 }
+            }
+            Err(e) => {
+                println!("FAIL engine: {e}");
+                1
+            }
+        },
+        _ => {
+            if let Some(i) = v["instance"].as_str() {
+                db.load(&parse_inst(i));
+            }
+            match db.query(&sql) {
+                Err(e) => {
+                    println!("FAIL engine: {e}");
+                    1
+                }
+                Ok((_, rows)) => {
+                    let got = show_rows(&rows);
+                    println!("got:      {got}\nexpected: {}", v["expected"].as_str().unwrap_or(""));
+                    let exp = v["expected"].as_str().unwrap_or("");
+                    let exp_rows = exp.split(" (sort keys").next().unwrap_or(exp);
+                    let mut a: Vec<&str> = got.split(' ').collect();
+                    let mut b: Vec<&str> = exp_rows.split(' ').collect();
+                    if v["kind"] != "Order" {
+                        a.sort();
+                        b.sort();
+                    }
+                    if a == b { println!("OK"); 0 } else { println!("FAIL"); 1 }
+                }
+            }
+        }
+    }
+}
